@@ -113,6 +113,9 @@ def generate(rng, tier):
                   "net": gen_net(rng, fault_rate, kinds)}
             if rng.random() < 0.3:
                 op["hdr"] = {"X-Other": f"v{k}"}
+            elif rng.random() < 0.25 and op["own_id"] is None:
+                # the caller re-uses ONE headers dict object for several requests (also across threads)
+                op["hdr_shared"] = rng.randrange(2)
             if rng.random() < 0.2:
                 # the thread first derives a fresh connection from the chosen one and sends through that
                 op["derive"] = rng.choice(["plain", "prefix", "mcaller"])
@@ -126,7 +129,7 @@ def generate(rng, tier):
                        "verb": "get", "path": "/warm", "own_id": None, "net": {"lat": 0, "body": ""}})
     est = len(ops) * 420
     return {"world": world, "nthreads": nthreads, "ops": ops,
-            "policy": gen_policy(rng, est)}
+            "policy": gen_policy(rng, est), "debug_log": rng.random() < 0.2}
 
 
 # --------------------------------------------------------------------------
@@ -192,8 +195,17 @@ def _derive_in_thread(w, kind):
     return ThreadCaller(base), True
 
 
+_SHARED_HEADERS = {}
+
+
 def do_request(objs, spec, op):
     w = objs[op["w"] % len(objs)]
+    if op.get("hdr_shared") is not None and op.get("own_id") is None and not op.get("derive"):
+        shared = _SHARED_HEADERS.setdefault(op["hdr_shared"], {"X-Shared": f"s{op['hdr_shared']}"})
+        kw = {"headers": shared}
+        if spec["wrappers"][op["w"] % len(objs)]["kind"].startswith("mcaller"):
+            return w.simcall(op["verb"], op["path"], kw)
+        return getattr(w, op["verb"])(op["path"], **kw)
     if op.get("derive"):
         w, is_mc = _derive_in_thread(w, op["derive"])
         hdrs = dict(op.get("hdr") or {})
@@ -216,6 +228,8 @@ def execute(trace, rng):
     log = EventLog()
     spec = trace["world"]
     shim, tr = hw.install_seams(trace.get("seed", 0) ^ 0x5EED, log)
+    hw.set_debug_logging(bool(trace.get("debug_log")))
+    _SHARED_HEADERS.clear()
     objs = build_world(spec)
     sim = ThreadSim(policy_spec=trace.get("policy"), rng=rng,
                     schedule=trace.get("schedule") if rng is None else None, log=log)
